@@ -3,8 +3,7 @@
    input of the table's range. *)
 From Coq Require Import Reals.
 From CC Require Import Base.Prelude Model.Fixed Model.PwlData Proofs.FixedBits Proofs.FixedPwl Proofs.PwlReal.
-From CC Require Import Proofs.PwlTables_exp_p10 Proofs.PwlTables_exp_p15 Proofs.PwlTables_sigmoid_p10
-  Proofs.PwlTables_sigmoid_p15 Proofs.PwlTables_gelu_p10 Proofs.PwlTables_gelu_p15.
+From CC Require Import Proofs.PwlTables_exp_p10 Proofs.PwlTables_exp_p15 Proofs.PwlTables_sigmoid_p10 Proofs.PwlTables_sigmoid_p15 Proofs.PwlTables_gelu_p10 Proofs.PwlTables_gelu_p15.
 Open Scope R_scope.
 
 Lemma exp_p10_total : forall x out, word x -> (-16896 < sv 64 x < 16384)%Z ->
